@@ -480,6 +480,33 @@ example : (step demo (.deliver "t" "c" 7 false 12)).2 = Ans.ok ∧
     (step (run (step demo (.emptyChan "t" "c")).1 [.pub "t" m2, .pump "t", .deleteChanBegin "t" "c", .deleteChanUnlink "t" "c",
       .createChan "t" "c" false, .sub "t" "c" 9]) (.deliver "t" "c" 9 true 11)).2 = Ans.notAllowed := by decide
 
+/-- the unlink of a deleted channel decides the ephemeral topic's fate from the channels that are left
+**at that moment**: none left → the topic goes (its once-only callback); otherwise the topic stays with
+exactly the other channels.  (Replayed: corpus/C08/ephemeral_topic_*.sched; tie `delete_chan_calls`.) -/
+theorem unlink_last_channel_deletes_ephemeral_topic (s : St) (t c : String) (T : Topic) (C : Chan)
+    (hT : getTopic s t = some T) (hC : T.getChan c = some C) (hx : C.exiting = true) (he : T.eph = true) :
+    ((T.chans.filter (fun X => X.name != c)).isEmpty = true →
+        getTopic (step s (.deleteChanUnlink t c)).1 t = none) ∧
+    ((T.chans.filter (fun X => X.name != c)).isEmpty = false →
+        getTopic (step s (.deleteChanUnlink t c)).1 t = some (T.dropChan c)) := by
+  constructor
+  · intro hl
+    simp only [step, hT, hC, hx, he, hl, Bool.not_true, Bool.false_eq_true, if_false, Bool.and_self, if_true]
+    exact getTopic_filter_ne s t _ rfl
+  · intro hl
+    simp only [step, hT, hC, hx, he, hl, Bool.not_true, Bool.false_eq_true, if_false, Bool.and_false]
+    rw [getTopic_modTopic s t (fun T => T.dropChan c) (fun _ => rfl), hT]
+    rfl
+
+/-- both interleavings of deleting the last two channels of an ephemeral topic end without the topic; a
+channel created while the last one is going away keeps the topic -/
+example :
+    let s0 := run (init 2) [.createTopic "e#" true, .createChan "e#" "a" false, .createChan "e#" "b" false]
+    getTopic (run s0 [.deleteChanBegin "e#" "a", .deleteChanBegin "e#" "b", .deleteChanUnlink "e#" "a", .deleteChanUnlink "e#" "b"]) "e#" = none ∧
+    getTopic (run s0 [.deleteChanBegin "e#" "a", .deleteChanBegin "e#" "b", .deleteChanUnlink "e#" "b", .deleteChanUnlink "e#" "a"]) "e#" = none ∧
+    (getTopic (run s0 [.deleteChanBegin "e#" "a", .deleteChanUnlink "e#" "a", .deleteChanBegin "e#" "b", .createChan "e#" "c" false,
+        .deleteChanUnlink "e#" "b"]) "e#").map (fun T => T.chans.map (·.name)) = some ["c"] := by decide
+
 end atomic
 
 end Nsq.Props.C08
